@@ -39,6 +39,7 @@ def run(ctx):
     # computation (a key popped from the caller's pad table) gives later iterations different envelopes
     from .c06 import rule_no_replacement
     from . import c05
+    ctx.rule(siftcore.rule_none_chain, 'C04.R8', gni)      # "returned unmodified" only for fewer than two extrema
     ctx.rule(c05.rule_strict_search, 'C04.R7')      # 'no extrema -> returned unmodified' is about strict extrema
     ctx.rule(rule_no_replacement, 'C04.R6', only={'emd.sift.get_next_imf', 'emd.sift.interp_envelope',
                                              'emd.sift.get_padded_extrema', 'emd.sift._find_extrema'})
